@@ -9,9 +9,10 @@ Local Open Scope nat_scope.
 Definition K : nat := Eval vm_compute in needed_flags adapters.
 Definition adapters_minus_known : list adapter := minus_known known adapters.
 
-(* (number of entry points, of which unlisted, flags needed, ".Entry(" occurrences in the source) *)
+(* (number of entry points, of which unlisted, flags needed, ".Entry(" occurrences in the
+   source, Entry call sites covered by an entry point) *)
 Definition summary := Eval vm_compute in
-  (length adapters, length adapters_minus_known, K, source_entry_calls).
+  (length adapters, length adapters_minus_known, K, source_entry_calls, covered_entry_calls).
 Print summary.
 
 (* which entry points have the canonical shape of C19_wf_implies_contract *)
@@ -30,11 +31,15 @@ Definition FS := Eval vm_compute in
                 end) F.
 Print FS.
 
-(* the translator saw every Entry call of the tree and every file parsed *)
+(* the translator saw every Entry call of the tree and every file parsed: each textual
+   ".Entry(" is a call in a syntax tree, each such call site became an Entry node of at least
+   one entry point (directly, or through the same-package helpers inlined into it: a helper
+   inlined at n call sites contributes n Entry nodes for one call site, hence <=) *)
 Theorem C19_all_entry_calls_translated :
-  fold_right Nat.add 0 (map (fun a => count_entries (a_body a)) adapters) = source_entry_calls /\
+  ast_entry_calls = source_entry_calls /\ covered_entry_calls = source_entry_calls /\
+  (source_entry_calls <=? fold_right Nat.add 0 (map (fun a => count_entries (a_body a)) adapters)) = true /\
   parse_failures = 0.
-Proof. vm_compute. split; reflexivity. Qed.
+Proof. vm_compute. repeat split; reflexivity. Qed.
 
 (* every unlisted entry point: no unclassified construct, and the contract holds in every
    enumerated environment *)
